@@ -12,3 +12,4 @@ def load_all():
     from . import values  # noqa
     from . import arith  # noqa
     from . import array  # noqa
+    from . import quantity_values  # noqa
